@@ -4,7 +4,7 @@ Specification: specs/vm/VMGas.tla (cost table, accounting discipline: charge / d
 child machine; potential Phi = gas + memory cost of both stacks) used by VMOps.tla and run as a state
 machine by VMRun.tla.  TLC checks on every state of every reference execution: gas never negative,
 Phi <= limit, a CHECKPREDICATE child never returns more than it received, 0 <= gasLeft <= limit.
-  E: TLC enumerates (VMGasCases.tla) all programs of <= 2 symbols (quick; thorough adds 3 of 8 shards of
+  E: TLC enumerates (VMGasCases.tla) all programs of <= 2 symbols (quick; thorough adds 2 of 8 shards of
      <= 3 symbols) over 27 symbols - pushes, refunding pops, back / forward jumps, CHECKPREDICATE calls
      with predicates that succeed, fail, run out of gas, leave items behind, loop or call again, alt-stack
      moves, size-dependent costs, expansion opcodes - x 2 argument lists x 4 (3) gas limits.
@@ -46,7 +46,7 @@ def run(ctx):
     # ---- E: enumerated programs
     runs = [("cfg/VMGasCases.quick.cfg", 0)]
     if not quick:
-        runs += [("cfg/VMGasCases.len3.cfg", (ctx.seed + 3 * j) % 8) for j in range(3)]
+        runs += [("cfg/VMGasCases.len3.cfg", (ctx.seed + 4 * j) % 8) for j in range(2)]
     for n, (cfg, k) in enumerate(runs):
         with open(os.path.join(os.path.dirname(os.path.dirname(os.path.abspath(__file__))), "specs", cfg)) as fh:
             text = fh.read().replace("Shard = 0", "Shard = %d" % k)
@@ -87,7 +87,7 @@ def run(ctx):
         rule="E: all programs of <= 2 symbols%s over the 27-symbol gas alphabet x 2 argument lists x gas limits "
              "{0,9,40,250} (len 3: {30,320,700}); T: seeded random / predicate-loop / per-opcode programs with limits up to 300000 "
              "(limits shrunk until the execution has <= 600 steps); non-trivial = at least one instruction completes"
-             % ("" if quick else " and 3 of 8 shards (by seed) of <= 3 symbols"),
+             % ("" if quick else " and 2 of 8 shards (by seed) of <= 3 symbols"),
     ), assumptions=[
         "the alt stack is not printed by vm.TraceOut; its memory cost is the reference's (all observable gas values must match)",
         "remaining gas of a failed top-level verification is only required to lie in [0, limit]",
